@@ -109,6 +109,23 @@ theorem C05_source_after_a_lost_connection (e : Env) (fuel : Nat) (fs : List Byt
   rw [(C05_source_disconnect_drops_the_buffer e fuel).1]
   exact C05_source_any_chunking fs hfs cs hcs
 
+/-- The two directions of the current source fit together: what the translated `send` writes for a payload (framing on), cut into chunks in any
+    way, is handed upward by the translated `receive` as exactly that payload. -/
+theorem C05_source_send_then_receive (p : Bytes) (h0 : 0 < p.length) (h : p.length < 16777216) (cs : List Bytes)
+    (hcs : cs.flatten = (Gen.SegSrc.send ok 0 (envOf init p)).low.flatten) :
+    runSrc init cs = ({ enabled := true, buf := [] }, [p]) := by
+  have hs := (C05_source_send_is_the_model init p 0).1
+  have hl := C05_send_layout p h
+  have hnr : (Gen.SegSrc.send ok 0 (envOf init p)).raised = false := by
+    cases hr : (Gen.SegSrc.send ok 0 (envOf init p)).raised
+    · rfl
+    · rw [hr] at hs; simp [init, hl] at hs
+  rw [hnr] at hs
+  simp only [init, hl, Bool.false_eq_true, ↓reduceIte, SendOut.writes.injEq] at hs
+  rw [runSrc_is_run]
+  apply C05_send_then_recv p h0 h cs
+  rw [hcs]; show (Gen.SegSrc.send ok 0 (envOf { enabled := true, buf := [] } p)).low.flatten = _; rw [hs]; simp
+
 /-- non-vacuity: a concrete run of the translated code — two frames, cut inside the second header -/
 example : (runSrc init [[0, 0, 2, 7, 8, 0], [0, 1], [9]]).2 = [[7, 8], [9]] ∧ (runSrc init [[0, 0, 2, 7, 8, 0], [0, 1], [9]]).1.buf = [] := by decide
 
